@@ -26,7 +26,7 @@ structure StaticEq (w w' : World Val Err Op) : Prop where
   consumers : w'.consumers = w.consumers
   nwatch : w'.nwatch = w.nwatch
   cellsLen : w'.cells.length = w.cells.length
-  stat : ∀ i, (w'.nodes[i]?).map (fun (nd : Node Val Err Op) => nd.toNStat) = (w.nodes[i]?).map (fun (nd : Node Val Err Op) => nd.toNStat)
+  stat : ∀ i : Nat, (w'.nodes[i]?).map (fun (nd : Node Val Err Op) => nd.toNStat) = (w.nodes[i]?).map (fun (nd : Node Val Err Op) => nd.toNStat)
 
 theorem StaticEq.refl (w : World Val Err Op) : StaticEq w w :=
   ⟨rfl, rfl, rfl, rfl, rfl, rfl, rfl, fun _ => rfl⟩
@@ -126,8 +126,8 @@ structure NodeWF (w : World Val Err Op) (i : NId) (nd : Node Val Err Op) : Prop 
   fnSub : ∀ q ∈ nd.fnParams, q ∈ nd.iparams
 
 structure WF (w : World Val Err Op) : Prop where
-  node : ∀ i nd, w.nodes[i]? = some nd → NodeWF w i nd
-  cellFn : ∀ i j ndi ndj, w.nodes[i]? = some ndi → w.nodes[j]? = some ndj → ndi.cell = ndj.cell → ndi.fn = ndj.fn
+  node : ∀ (i : Nat) (nd : Node Val Err Op), w.nodes[i]? = some nd → NodeWF w i nd
+  cellFn : ∀ (i j : Nat) (ndi ndj : Node Val Err Op), w.nodes[i]? = some ndi → w.nodes[j]? = some ndj → ndi.cell = ndj.cell → ndi.fn = ndj.fn
 
 theorem NodeWF.of_staticEq {w w' : World Val Err Op} (h : StaticEq w w') {i : NId} {nd nd' : Node Val Err Op}
     (hs : nd'.toNStat = nd.toNStat) (hw : NodeWF w i nd) : NodeWF w' i nd' := by
@@ -187,11 +187,11 @@ structure CohAt (S : Sem Val Err Op) (env : PId → Val) (cells : List (Option V
   cell : nd.prev = none → nd.dirtyObj = false → ∀ v, cells[nd.cell]? = some (some v) → eval S env nd.expr = .ok v
 
 def CohOn (S : Sem Val Err Op) (P : NId → Prop) (w : World Val Err Op) : Prop :=
-  ∀ i nd, P i → w.nodes[i]? = some nd → CohAt S w.vals w.cells nd
+  ∀ (i : Nat) (nd : Node Val Err Op), P i → w.nodes[i]? = some nd → CohAt S w.vals w.cells nd
 
 /-- `P` is closed under the references of its nodes -/
 def Closed (P : NId → Prop) (w : World Val Err Op) : Prop :=
-  ∀ i nd, P i → w.nodes[i]? = some nd →
+  ∀ (i : Nat) (nd : Node Val Err Op), P i → w.nodes[i]? = some nd →
     P nd.root ∧ (∀ p, nd.prev = some p → P p) ∧
     (∀ o, nd.op = some o → ∀ m, Arg.node m ∈ o.args → P m) ∧
     (∀ m, Arg.node m ∈ fnArgs nd.fn → P m)
@@ -208,8 +208,8 @@ theorem Closed.of_staticEq {P : NId → Prop} {w w' : World Val Err Op} (h : Sta
 
 /-- nodes outside `P`, and cells no `P` node uses, are untouched -/
 structure Frame (P : NId → Prop) (w w' : World Val Err Op) : Prop where
-  nodes : ∀ i, ¬ P i → w'.nodes[i]? = w.nodes[i]?
-  cells : ∀ c, (∀ i nd, P i → w.nodes[i]? = some nd → nd.cell ≠ c) → w'.cells[c]? = w.cells[c]?
+  nodes : ∀ i : Nat, ¬ P i → w'.nodes[i]? = w.nodes[i]?
+  cells : ∀ c : Nat, (∀ (i : Nat) (nd : Node Val Err Op), P i → w.nodes[i]? = some nd → nd.cell ≠ c) → w'.cells[c]? = w.cells[c]?
 
 theorem Frame.refl (P : NId → Prop) (w : World Val Err Op) : Frame P w w := ⟨fun _ _ => rfl, fun _ _ => rfl⟩
 
